@@ -151,6 +151,36 @@ IdHolds(id, T, K) == IF id = "mn_gt_mp" THEN BLess(Lhs(id, T), Rhs(id, T))      
                      ELSE BClose(Lhs(id, T), Rhs(id, T), IdPrecision(id, K))
 
 -----------------------------------------------------------------------------
+(* The relations among constants that are exact by definition (R, F, hbar:   *)
+(* products of exact SI constants) or tied by theory (eps0 mu0 c^2 = 1,      *)
+(* Z0 = mu0 c) hold far below the ninth digit.  They are evaluated on the    *)
+(* library's values with twelve-digit arithmetic (BigMant!HMul) and must     *)
+(* hold within q * 10^-10 relative:                                          *)
+(*   q = 1 for R, F, hbar (exact constants; the tolerance only absorbs the   *)
+(*         truncation of the twelve-digit products);                         *)
+(*   q = 3 for eps_mu and Z0: mu0, eps0 and Z0 are measured quantities since *)
+(*         2019, each known to 1.5 * 10^-10 relative (CODATA 2018 and 2022), *)
+(*         so two of them tied by an exact factor may disagree by at most    *)
+(*         the sum of their uncertainties.  (The pinned library: 0 and       *)
+(*         1.3 * 10^-10.)                                                    *)
+HIdNames == {"R", "F", "hbar", "eps_mu", "Z0"}
+HTolQ(id) == IF id \in {"eps_mu", "Z0"} THEN 3 ELSE 1
+HMul3(a, b, c) == HMul(HMul(a, b), c)
+HLhs(id, T) ==
+  CASE id = "R"      -> T["molar_gas_constant"]
+    [] id = "F"      -> T["faraday_constant"]
+    [] id = "hbar"   -> HMul3(T["hbar"], HTwo, HPi)
+    [] id = "eps_mu" -> HMul3(T["vacuum_permittivity"], T["vacuum_permeability"], HMul(T["speed_of_light"], T["speed_of_light"]))
+    [] id = "Z0"     -> T["vacuum_impedance"]
+HRhs(id, T) ==
+  CASE id = "R"      -> HMul(T["boltzmann_constant"], T["avogadro_constant"])
+    [] id = "F"      -> HMul(T["elementary_charge"], T["avogadro_constant"])
+    [] id = "hbar"   -> T["planck"]
+    [] id = "eps_mu" -> HOne
+    [] id = "Z0"     -> HMul(T["vacuum_permeability"], T["speed_of_light"])
+HIdHolds(id, T) == HClose(HLhs(id, T), HRhs(id, T), HTolQ(id))
+
+-----------------------------------------------------------------------------
 (* Model checking of the reference table itself: a trivial machine that      *)
 (* steps through the rows and then through the identities.                   *)
 
@@ -159,6 +189,7 @@ RECURSIVE SeqOf(_)
 SeqOf(S) == IF S = {} THEN <<>> ELSE LET x == CHOOSE y \in S : TRUE IN <<x>> \o SeqOf(S \ {x})   \* any fixed order
 RowSeq == SeqOf(Names)
 IdSeq == SeqOf(IdNames)
+HIdSeq == SeqOf(HIdNames)
 NSteps == Len(RowSeq) + Len(IdSeq)
 
 Init == step = 1
@@ -170,7 +201,7 @@ RowWellFormed(r) == /\ r.m >= E8 /\ r.m < E9 /\ r.e \in -40..40 /\ r.k \in 1..9
 TableWellFormed == step <= Len(RowSeq) => RowWellFormed(Ref[RowSeq[step]])
 IdentitiesHoldOnReference ==
   step > Len(RowSeq) => IdHolds(IdSeq[step - Len(RowSeq)], RefNum, RefK)
-BigMantSane == step = 1 => MulExactOn3Digits
+BigMantSane == step = 1 => MulExactOn3Digits /\ HMulSane
 TableSize == Cardinality(Names) = 52 /\ \A id \in IdNames : Involved(id) \subseteq Names
 ASSUME TableSize
 
